@@ -16,7 +16,7 @@ CLAIMED = {
  "C18": dict(
    text="Murmur2.tla transcribes the Java client's murmur2 in 16-bit limb arithmetic and is pinned to the six vectors of Apache Kafka's UtilsTest by ASSUMEs; TLC enumerates every key over a 5-byte alphabet up to length 5 (quick) / 6 (thorough) and emits hash and partition picks that are compared with pure_murmur2 and HashedPartitioner for bytes/bytearray/str forms; Partitioner.tla model-checks round-robin fairness over all histories with list changes from every start, its behaviours are replayed on the real objects (random start forced to the model's), and recorded call histories of long-lived partitioner objects are validated by TLC.",
    ref="DESIGN.md 6.8, 7 (C18)",
-   note="Trusted: TLC, the six Java-produced anchor values. Not covered: the optional C extension murmurhash2 (not installed); uniformity of the random start (statistical)."),
+   note="Trusted: TLC, the six Java-produced anchor values. Round-robin fairness for runs of ANY length is additionally proved on the design by Apalache (RoundRobinInd.tla: inductive invariant, initiation / consecution / invariant => fairness, re-run by every check). Not covered: the optional C extension murmurhash2 (not installed); uniformity of the random start (statistical)."),
  "C15": dict(
    text="Assignment.tla states the four clauses (every partition exactly once, only to subscribers, balanced for identical subscriptions, independent of member order) independently of the algorithm, TLC checks them on the documented round-robin algorithm for every input with <=3 members, 2 topics and 5 partition sets (exhaustive on that domain), every such input is executed on the real generate_assignments for every order of the member list and each member's share is decoded with the real decode_assignment (and an independent parse of the encoded bytes), and TLC re-validates the recorded outputs against the same clauses; larger seeded inputs go the same way.",
    ref="DESIGN.md 6.8, 7 (C15)",
